@@ -316,9 +316,10 @@ func c10newNet() *c10net {
 		n.hosts[name] = h
 		n.realms[realm] = h
 	}
-	// host A is fully symbolic; host B is a fixed password-protected bearer registry
+	// host A is fully symbolic; host B is a fixed password-protected bearer registry on the
+	// same host name but another port (per-registry state is keyed by host:port)
 	mk("rega.example", "toka.example", true)
-	mk("regb.example", "tokb.example", false)
+	mk("rega.example:5001", "tokb.example", false)
 	return n
 }
 
@@ -328,7 +329,7 @@ func VerifC10_Flow() {
 	n := c10newNet()
 	cfg := c10config{n: n}
 	if verifParam("configfail", 0) == 1 && verifBool("configFails") {
-		cfg.failFor = "regb.example"
+		cfg.failFor = "rega.example:5001"
 	}
 	tr := NewStdTransport(StdTransportParams{Config: cfg, Transport: n})
 	calls := verifParam("calls", 2)
@@ -336,7 +337,7 @@ func VerifC10_Flow() {
 		n.call = i
 		n.regReqs, n.tokReqs = 0, 0
 		n.challengedThisCall, n.firstWasCached = false, false
-		hostName := []string{"rega.example", "regb.example"}[verifChoose("host", 2)]
+		hostName := []string{"rega.example", "rega.example:5001"}[verifChoose("host", 2)]
 		h := n.hosts[hostName]
 		if verifParam("trim", 0) >= 1 {
 			// reduced menus for multi-call histories (trim=2: the token server always grants)
